@@ -305,6 +305,13 @@ def jobs(tier):
                     continue
                 out.append(('independent', 'case_independent',
                             dict(e, own_noise_only=True, seed=seed), FACTS))
+        elif e['entry'].startswith('init_'):
+            # the initial points of one call: every entry of every row has
+            # its own noise (rows are not copies of one restarted stream)
+            for seed in (11, 0):
+                out.append(('independent', 'case_independent',
+                            dict(e, own_noise_only=True, delta_ok=True,
+                                 seed=seed), FACTS))
     return out
 
 
